@@ -732,8 +732,7 @@ package netty
 
 // ReadFrom streams a reader in 1024-byte chunks, each handed to write1 exactly once, in order (C14).
 // (Each chunk is a separate low-level write: that is the known C09 finding for reader-typed messages.)
-//@ property C14 C09 C10 C11
-//@ property C14 C09 C10 C11
+//@ property C14 C09 C10 C11 C12
 //@ func (*channel).ReadFrom
 //@   requires chinv(c) && implies(c.writeQueue != nil, cap(c.writeQueue) >= 1) && r != nil && rwf(r)
 //@   ensures closed_rejects@C11: implies(old(closedState(c)), err != nil && n == 0 && count("netty.channel.write1") == 0 && count("io.Reader.Read") == 0)
@@ -781,6 +780,7 @@ package netty
 // C10: ReadFrom relinquishes the pooled chunk to the queue: after handing it to write1 it never
 // touches it again (it obtains a new one in the next iteration)
 //@ property C10
+//@ property C10 C12 C14
 //@ nouse (*channel).ReadFrom: after "write1" argument 1
 
 // ---------------------------------------------------------------------------
